@@ -271,8 +271,10 @@ def _views_job(items):
     import time
     time.time = lambda: 1.6e9
     out = []
-    for depth in items:
-        st = bfs.explore(VIEW_OPS, build_views, apply_views, key_views, depth, teardown=teardown_views)
+    for depth, special in items:
+        # at most one of the two "internal directory" events happens per history: two searches cover the same space
+        ops = [o for o in VIEW_OPS if o[0] not in ("move_internal", "new_internal") or o[0] == special]
+        st = bfs.explore(ops, build_views, apply_views, key_views, depth, teardown=teardown_views)
         out.append(dict(states=st.states, transitions=st.transitions, closed=st.closed, samples=st.samples[:2],
                         problems=[(list(h), list(o), p) for h, o, p in st.problems[:50]]))
     return out
@@ -291,7 +293,10 @@ def run(tier, seed):
     for probs in outs:
         for k, what, case in probs:
             res.violations.append(Violation(P, k, what, case))
-    vouts = pool.pmap(_views_job, [12 if tier == "quick" else 20], procs=1)
+    vd = 6 if tier == "quick" else 20
+    vouts = pool.pmap(_views_job, [(vd, "move_internal"), (vd, "new_internal")], chunk=1, procs=2)
+    vouts = [dict(vouts[0], states=sum(o["states"] for o in vouts), transitions=sum(o["transitions"] for o in vouts),
+                  closed=all(o["closed"] for o in vouts), problems=[p for o in vouts for p in o["problems"]])]
     for o in vouts:
         for h, op, p in o["problems"]:
             res.violations.append(Violation(P, p[0], f"after {h}: {p[1]}", {"mode": "views", "ops": h + [op]}))
